@@ -5,7 +5,8 @@
    [good] = wf (the statement) + all_aligned (every group, deleted or not, lies in one cell: needed to revive a group) +
    covered (the C14 clause) + repaired; it is the inductive invariant. *)
 From Coq Require Import ZArith List Bool Lia.
-From OG Require Import C16.Model C16.Wf C16.Proofs C16.ProofsCmd C16.ProofsSg C16.ProofsNew C16.ProofsInv C16.ProofsRun C16.ProofsIds C16.Order.
+From OG Require Import C16.Model C16.Wf C16.Proofs C16.ProofsCmd C16.ProofsSg C16.ProofsNew C16.ProofsInv C16.ProofsRun C16.ProofsIds C16.Order
+  C16.Expand C16.ProofsExpand.
 Import ListNotations.
 Open Scope Z_scope.
 
@@ -144,6 +145,18 @@ Theorem C15_oracle_step_is_model_step : forall range_create clip cleardef o c x,
   applyO (fun _ => 0) range_create clip cleardef o c x = apply clip cleardef c x.
 Proof. intros. apply applyO_hash; [assumption | reflexivity]. Qed.
 Print Assumptions C15_oracle_step_is_model_step.
+
+(* ---- ExpandGroups (outside [cmd]; see Expand.v): identifiers ---- *)
+(* an expansion keeps every identifier and adds only identifiers above the counters; counters do not decrease: so the
+   never-handed-out-twice argument extends over expansions *)
+Theorem C16_expand_ids_fresh : forall c k id, 0 <= ptnum c ->
+  In id (ids k (expand_groups c)) -> In id (ids k c) \/ issued k c < id.
+Proof. exact expand_ids_step. Qed.
+Print Assumptions C16_expand_ids_fresh.
+
+Theorem C16_expand_counters_monotone : forall c, 0 <= ptnum c -> counters_le c (expand_groups c).
+Proof. exact expand_counters_le. Qed.
+Print Assumptions C16_expand_counters_monotone.
 
 (* non-vacuity: the environment hypotheses are satisfiable on a run that creates, alters, renames, deletes, revives and prunes *)
 Definition example_run : list cmd :=
